@@ -176,7 +176,17 @@ def _preimport():
 def run_bounded(ctx: Ctx) -> Report:
     rep = Report(property_id=PID, level="exploration")
     rep.functions_under_contract = ["fggs.sum_product.sum_product", "fggs.sum_product.sum_products"]
-    recipes = list(G.enum_nonrecursive(ctx.tier, ctx.rng("c01-grammars")))
+    rng = ctx.rng("c01-grammars")
+    recipes = list(G.enum_nonrecursive(ctx.tier, rng))
+    if ctx.thorough:            # more seeded random grammars than the shared thorough enumeration has
+        seen = {G.canonical(g) for g in recipes}
+        for _ in range(10000):
+            g = G.random_grammar(rng, ())
+            c = G.canonical(g)
+            if c not in seen:
+                seen.add(c)
+                g["meta"] = {"family": "random-extra"}
+                recipes.append(g)
     distinct = set()
     nontrivial = 0
     feature_count: Dict[str, int] = {}
